@@ -904,7 +904,7 @@ def derivative_part(ctx: Ctx):
 def scipy_part(ctx: Ctx, drv):
     """linear: correspondence with the Lean model; all four: oracle; barycentric vs Lean lagrange with w = n"""
     rng = ctx.rng
-    ncases = ctx.budget(60, 1200)
+    ncases = ctx.budget(60, 900)
     for ci in range(ncases):
         for kind in KINDS[1:]:
             with guard(ctx, "scipy"):
@@ -1593,7 +1593,7 @@ def run(ctx: Ctx):
     ctx.proof = common.prove("C20")
     if ctx.thorough and ctx.proof.ok:
         mods = ["Midgard.Props.C20", "Midgard.Proofs.C20Lagrange", "Midgard.Proofs.C20Dop", "Midgard.Proofs.C20Algebra",
-                "Midgard.Proofs.C20Deriv", "Midgard.Proofs.C20Bary", "Midgard.Proofs.C20Nputil", "Midgard.Proofs.C20Spherical", "Midgard.Proofs.C20Spline", "Midgard.Proofs.C20Stats", "Midgard.Proofs.C20Grid", "Midgard.Proofs.C20DerivAll",
+                "Midgard.Proofs.C20Deriv", "Midgard.Proofs.C20Bary", "Midgard.Proofs.C20Nputil", "Midgard.Proofs.C20Spherical", "Midgard.Proofs.C20Spline", "Midgard.Proofs.C20Stats", "Midgard.Proofs.C20Grid", "Midgard.Proofs.C20DerivAll", "Midgard.Proofs.C20Tensor",
                 "Midgard.Model.Numeric", "Midgard.Spec.UnitsSI", "Midgard.Generated.C20Tables"]
         import subprocess
         with common.lake_lock():
